@@ -18,7 +18,7 @@ use std::panic::{AssertUnwindSafe, catch_unwind};
 use utils::id_set::IdSet;
 use vh::*;
 
-trait Val: Hash + Eq + Clone + Debug {
+trait Val: Hash + Eq + Clone + Debug + Default {
     fn token(&self) -> String;
     fn pool() -> Vec<Self>;
     const NAME: &'static str;
@@ -367,9 +367,11 @@ fn run_history<T: Val>(ops: &[Op<T>]) -> HistResult {
         let mut mutated = false;
         let ans: String = match op {
             Op::New => {
-                sets.push(Some(Live { set: IdSet::new(), r: Ref::default() }));
+                // `IdSet::new()` and the derived `Default` must give the same empty set
+                let set = if k % 2 == 0 { IdSet::new() } else { IdSet::default() };
+                sets.push(Some(Live { set, r: Ref::default() }));
                 mutated = true;
-                hist.push("new");
+                hist.push(if k % 2 == 0 { "new" } else { "new:default()" });
                 format!("h{}", sets.len() - 1)
             }
             Op::Ins(h, v) => {
@@ -400,6 +402,11 @@ fn run_history<T: Val>(ops: &[Op<T>]) -> HistResult {
                     fails.push(format!("{}: try_get_id answered {a:?}, reference {r:?}", descr(k + 1)));
                 }
                 hist.push(if a.is_some() { "try_get_id:some" } else { "try_get_id:none" });
+                // `get_id` is `try_get_id(..).unwrap()`: same id when present, a (safe) panic when absent
+                let g = catch_unwind(AssertUnwindSafe(|| l.set.get_id(v))).ok();
+                if g != r {
+                    fails.push(format!("{}: get_id gave {g:?}, reference {r:?}", descr(k + 1)));
+                }
                 match a {
                     Some(i) => format!("some{i}"),
                     None => "none".into(),
@@ -590,7 +597,7 @@ fn miri_stage(ctx: &mut Ctx) {
             let text = format!("{}{}", String::from_utf8_lossy(&o.stdout), String::from_utf8_lossy(&o.stderr));
             if o.status.success() {
                 ctx.count("miri-histories-clean");
-                ctx.notes.push(format!("miri: {}", text.lines().last().unwrap_or("")));
+                ctx.notes.push(format!("miri: {}", text.lines().find(|l| l.contains("_miri:")).unwrap_or("")));
             } else if text.contains("Undefined Behavior") {
                 let hist = text.lines().filter(|l| l.starts_with("HISTORY")).last().unwrap_or("");
                 let ub = text.lines().find(|l| l.contains("Undefined Behavior")).unwrap_or("");
